@@ -11,6 +11,7 @@ import (
 	"math"
 	"strconv"
 	"strings"
+	"sync"
 	"time"
 	"unicode/utf8"
 	"unsafe"
@@ -33,20 +34,20 @@ func init() {
 	nop := func(fr *frame, args []value) value { return nil }
 	for k, v := range map[string]externalFn{
 		// runtime
-		"runtime.GC":            nop,
-		"runtime.Gosched":       nop,
-		"runtime.KeepAlive":     nop,
-		"runtime.SetFinalizer":  nop,
-		"runtime.Callers":       func(fr *frame, args []value) value { return 0 },
-		"runtime.Caller":        func(fr *frame, args []value) value { return tuple{uintptr(0), "", 0, false} },
-		"runtime.NumCPU":        func(fr *frame, args []value) value { return 1 },
-		"runtime.GOMAXPROCS":    func(fr *frame, args []value) value { return 1 },
-		"internal/abi.NoEscape": func(fr *frame, args []value) value { return args[0] },
-		"internal/abi.Escape":   func(fr *frame, args []value) value { return args[0] },
-		"internal/race.Enabled": nop,
-		"os.Getenv":             func(fr *frame, args []value) value { return "" },
-		"os.LookupEnv":          func(fr *frame, args []value) value { return tuple{"", false} },
-		"internal/godebug.(*Setting).Value": func(fr *frame, args []value) value { return "" },
+		"runtime.GC":                                nop,
+		"runtime.Gosched":                           nop,
+		"runtime.KeepAlive":                         nop,
+		"runtime.SetFinalizer":                      nop,
+		"runtime.Callers":                           func(fr *frame, args []value) value { return 0 },
+		"runtime.Caller":                            func(fr *frame, args []value) value { return tuple{uintptr(0), "", 0, false} },
+		"runtime.NumCPU":                            func(fr *frame, args []value) value { return 1 },
+		"runtime.GOMAXPROCS":                        func(fr *frame, args []value) value { return 1 },
+		"internal/abi.NoEscape":                     func(fr *frame, args []value) value { return args[0] },
+		"internal/abi.Escape":                       func(fr *frame, args []value) value { return args[0] },
+		"internal/race.Enabled":                     nop,
+		"os.Getenv":                                 func(fr *frame, args []value) value { return "" },
+		"os.LookupEnv":                              func(fr *frame, args []value) value { return tuple{"", false} },
+		"internal/godebug.(*Setting).Value":         func(fr *frame, args []value) value { return "" },
 		"internal/godebug.(*Setting).IncNonDefault": nop,
 
 		// sync
@@ -63,73 +64,73 @@ func init() {
 			fr.i.x.drainGoroutines(fr.i)
 			return nil
 		},
-		"(*sync.Once).Do": extOnceDo,
+		"(*sync.Once).Do":  extOnceDo,
 		"(*sync.Pool).Put": nop,
 		"(*sync.Pool).Get": extPoolGet,
 
 		// sync/atomic
-		"sync/atomic.LoadUint32":  atomicLoad,
-		"sync/atomic.LoadInt32":   atomicLoad,
-		"sync/atomic.LoadUint64":  atomicLoad,
-		"sync/atomic.LoadInt64":   atomicLoad,
-		"sync/atomic.LoadPointer": atomicLoad,
-		"sync/atomic.LoadUintptr": atomicLoad,
-		"sync/atomic.StoreUint32": atomicStore,
-		"sync/atomic.StoreInt32":  atomicStore,
-		"sync/atomic.StoreUint64": atomicStore,
-		"sync/atomic.StoreInt64":  atomicStore,
-		"sync/atomic.StorePointer": atomicStore,
-		"sync/atomic.StoreUintptr": atomicStore,
-		"sync/atomic.AddInt32":    atomicAdd,
-		"sync/atomic.AddUint32":   atomicAdd,
-		"sync/atomic.AddInt64":    atomicAdd,
-		"sync/atomic.AddUint64":   atomicAdd,
-		"sync/atomic.CompareAndSwapInt32":  atomicCAS,
-		"sync/atomic.CompareAndSwapUint32": atomicCAS,
-		"sync/atomic.CompareAndSwapInt64":  atomicCAS,
-		"sync/atomic.CompareAndSwapUint64": atomicCAS,
+		"sync/atomic.LoadUint32":            atomicLoad,
+		"sync/atomic.LoadInt32":             atomicLoad,
+		"sync/atomic.LoadUint64":            atomicLoad,
+		"sync/atomic.LoadInt64":             atomicLoad,
+		"sync/atomic.LoadPointer":           atomicLoad,
+		"sync/atomic.LoadUintptr":           atomicLoad,
+		"sync/atomic.StoreUint32":           atomicStore,
+		"sync/atomic.StoreInt32":            atomicStore,
+		"sync/atomic.StoreUint64":           atomicStore,
+		"sync/atomic.StoreInt64":            atomicStore,
+		"sync/atomic.StorePointer":          atomicStore,
+		"sync/atomic.StoreUintptr":          atomicStore,
+		"sync/atomic.AddInt32":              atomicAdd,
+		"sync/atomic.AddUint32":             atomicAdd,
+		"sync/atomic.AddInt64":              atomicAdd,
+		"sync/atomic.AddUint64":             atomicAdd,
+		"sync/atomic.CompareAndSwapInt32":   atomicCAS,
+		"sync/atomic.CompareAndSwapUint32":  atomicCAS,
+		"sync/atomic.CompareAndSwapInt64":   atomicCAS,
+		"sync/atomic.CompareAndSwapUint64":  atomicCAS,
 		"sync/atomic.CompareAndSwapPointer": atomicCAS,
 
 		// math
 		"math.Float64bits":     extFloat64bits,
 		"math.Float64frombits": extFloat64frombits,
-		"math.Float32bits": func(fr *frame, args []value) value { return math.Float32bits(args[0].(float32)) },
+		"math.Float32bits":     func(fr *frame, args []value) value { return math.Float32bits(args[0].(float32)) },
 		"math.Float32frombits": func(fr *frame, args []value) value { return math.Float32frombits(args[0].(uint32)) },
-		"math.IsNaN":  extIsNaN,
-		"math.IsInf":  extIsInf,
-		"math.NaN":    func(fr *frame, args []value) value { return math.NaN() },
-		"math.Inf":    func(fr *frame, args []value) value { return math.Inf(int(asInt64(args[0]))) },
-		"math.Abs":    mathUF1("Abs", math.Abs),
-		"math.Floor":  mathUF1("Floor", math.Floor),
-		"math.Ceil":   mathUF1("Ceil", math.Ceil),
-		"math.Trunc":  mathUF1("Trunc", math.Trunc),
-		"math.Round":  mathUF1("Round", math.Round),
-		"math.Sqrt":   mathUF1("Sqrt", math.Sqrt),
-		"math.Log":    mathUF1("Log", math.Log),
-		"math.Log2":   mathUF1("Log2", math.Log2),
-		"math.Log10":  mathUF1("Log10", math.Log10),
-		"math.Exp":    mathUF1("Exp", math.Exp),
-		"math.Pow":    mathUF2("Pow", math.Pow),
-		"math.Mod":    mathUF2("Mod", math.Mod),
-		"math.Max":    mathUF2("Max", math.Max),
-		"math.Min":    mathUF2("Min", math.Min),
+		"math.IsNaN":           extIsNaN,
+		"math.IsInf":           extIsInf,
+		"math.NaN":             func(fr *frame, args []value) value { return math.NaN() },
+		"math.Inf":             func(fr *frame, args []value) value { return math.Inf(int(asInt64(args[0]))) },
+		"math.Abs":             mathUF1("Abs", math.Abs),
+		"math.Floor":           mathUF1("Floor", math.Floor),
+		"math.Ceil":            mathUF1("Ceil", math.Ceil),
+		"math.Trunc":           mathUF1("Trunc", math.Trunc),
+		"math.Round":           mathUF1("Round", math.Round),
+		"math.Sqrt":            mathUF1("Sqrt", math.Sqrt),
+		"math.Log":             mathUF1("Log", math.Log),
+		"math.Log2":            mathUF1("Log2", math.Log2),
+		"math.Log10":           mathUF1("Log10", math.Log10),
+		"math.Exp":             mathUF1("Exp", math.Exp),
+		"math.Pow":             mathUF2("Pow", math.Pow),
+		"math.Mod":             mathUF2("Mod", math.Mod),
+		"math.Max":             mathUF2("Max", math.Max),
+		"math.Min":             mathUF2("Min", math.Min),
 		"math.Modf": func(fr *frame, args []value) value {
 			a, b := math.Modf(concFloat(args[0], "math.Modf"))
 			return tuple{a, b}
 		},
 
 		// bytealg / strings / bytes
-		"internal/bytealg.IndexByte":       extIndexByte,
-		"internal/bytealg.IndexByteString": extIndexByte,
+		"internal/bytealg.IndexByte":           extIndexByte,
+		"internal/bytealg.IndexByteString":     extIndexByte,
 		"internal/bytealg.LastIndexByte":       extLastIndexByte,
 		"internal/bytealg.LastIndexByteString": extLastIndexByte,
-		"internal/bytealg.Index":           extIndex,
-		"internal/bytealg.IndexString":     extIndex,
-		"internal/bytealg.Equal":           extBytesEqual,
-		"internal/bytealg.Compare":         extCompare,
-		"internal/bytealg.CompareString":   extCompare,
-		"internal/bytealg.Count":           extCount,
-		"internal/bytealg.CountString":     extCount,
+		"internal/bytealg.Index":               extIndex,
+		"internal/bytealg.IndexString":         extIndex,
+		"internal/bytealg.Equal":               extBytesEqual,
+		"internal/bytealg.Compare":             extCompare,
+		"internal/bytealg.CompareString":       extCompare,
+		"internal/bytealg.Count":               extCount,
+		"internal/bytealg.CountString":         extCount,
 		"internal/bytealg.MakeNoZero": func(fr *frame, args []value) value {
 			n := int(asInt64(args[0]))
 			b := make([]value, n)
@@ -173,7 +174,12 @@ func init() {
 		"strconv.FormatFloat": func(fr *frame, args []value) value {
 			return strconv.FormatFloat(concFloat(args[0], "strconv.FormatFloat"), args[1].(byte), int(asInt64(args[2])), int(asInt64(args[3])))
 		},
-		"strconv.Quote": func(fr *frame, args []value) value { return strconv.Quote(concStr(args[0], "strconv.Quote")) },
+		"strconv.Quote": func(fr *frame, args []value) value {
+			if s, ok := args[0].(string); ok {
+				return strconv.Quote(s)
+			}
+			return interpretInstead{}
+		},
 		"strconv.Unquote": func(fr *frame, args []value) value {
 			s, err := strconv.Unquote(concStr(args[0], "strconv.Unquote"))
 			return tuple{s, fr.i.errValue(err)}
@@ -186,29 +192,29 @@ func init() {
 		"fmt.Fprintln": extFprintln,
 
 		// time
-		"time.Now":  func(fr *frame, args []value) value { return fr.i.x.nowValue() },
-		"time.Unix": extTimeUnix,
-		"time.Since": func(fr *frame, args []value) value { return int64(0) },
-		"(time.Time).Add":        extTimeAdd,
-		"(time.Time).Sub":        extTimeSub,
-		"(time.Time).After":      extTimeCmp(token.GTR),
-		"(time.Time).Before":     extTimeCmp(token.LSS),
-		"(time.Time).Equal":      extTimeCmp(token.EQL),
-		"(time.Time).Compare":    extTimeCompare,
-		"(time.Time).UnixNano":   func(fr *frame, args []value) value { return timeNs(args[0]) },
-		"(time.Time).Unix":       extTimeUnixSec,
-		"(time.Time).UnixMilli":  extTimeUnixMilli,
-		"(time.Time).IsZero":     func(fr *frame, args []value) value { return args[0].(timeVal).zero },
-		"(time.Time).UTC":        func(fr *frame, args []value) value { return args[0] },
-		"(time.Time).Local":      func(fr *frame, args []value) value { return args[0] },
-		"(time.Time).In":         func(fr *frame, args []value) value { return args[0] },
-		"(time.Time).Round":      func(fr *frame, args []value) value { return args[0] },
-		"(time.Time).Truncate":   extTimeTruncate,
-		"(time.Time).Format":     extTimeFormat,
+		"time.Now":                 func(fr *frame, args []value) value { return fr.i.x.nowValue() },
+		"time.Unix":                extTimeUnix,
+		"time.Since":               func(fr *frame, args []value) value { return int64(0) },
+		"(time.Time).Add":          extTimeAdd,
+		"(time.Time).Sub":          extTimeSub,
+		"(time.Time).After":        extTimeCmp(token.GTR),
+		"(time.Time).Before":       extTimeCmp(token.LSS),
+		"(time.Time).Equal":        extTimeCmp(token.EQL),
+		"(time.Time).Compare":      extTimeCompare,
+		"(time.Time).UnixNano":     func(fr *frame, args []value) value { return timeNs(args[0]) },
+		"(time.Time).Unix":         extTimeUnixSec,
+		"(time.Time).UnixMilli":    extTimeUnixMilli,
+		"(time.Time).IsZero":       func(fr *frame, args []value) value { return args[0].(timeVal).zero },
+		"(time.Time).UTC":          func(fr *frame, args []value) value { return args[0] },
+		"(time.Time).Local":        func(fr *frame, args []value) value { return args[0] },
+		"(time.Time).In":           func(fr *frame, args []value) value { return args[0] },
+		"(time.Time).Round":        func(fr *frame, args []value) value { return args[0] },
+		"(time.Time).Truncate":     extTimeTruncate,
+		"(time.Time).Format":       extTimeFormat,
 		"(time.Time).AppendFormat": extTimeAppendFormat,
-		"(time.Time).String":     func(fr *frame, args []value) value { return extTimeFormat(fr, []value{args[0], time.RFC3339Nano}) },
-		"time.Parse":             extTimeParse,
-		"time.ParseDuration":     extParseDuration,
+		"(time.Time).String":       func(fr *frame, args []value) value { return extTimeFormat(fr, []value{args[0], time.RFC3339Nano}) },
+		"time.Parse":               extTimeParse,
+		"time.ParseDuration":       extParseDuration,
 		"(time.Duration).String": func(fr *frame, args []value) value {
 			return time.Duration(concInt(fr, args[0], "Duration.String")).String()
 		},
@@ -1040,4 +1046,187 @@ func init() {
 		}
 		return iface{t: it.t, v: c}
 	}
+}
+
+// interpretInstead is returned by an external that declines the call: the
+// function is then interpreted from its SSA.
+type interpretInstead struct{}
+
+func init() {
+	decode := func(fr *frame, args []value) value {
+		b := bytesOf(args[0])
+		if len(b) == 0 {
+			return tuple{rune(utf8.RuneError), 0}
+		}
+		r, w := fr.i.x.decodeRune(b, 0)
+		return tuple{r, w}
+	}
+	externals["unicode/utf8.DecodeRuneInString"] = decode
+	externals["unicode/utf8.DecodeRune"] = decode
+	count := func(fr *frame, args []value) value {
+		b := bytesOf(args[0])
+		n := 0
+		for pos := 0; pos < len(b); n++ {
+			_, w := fr.i.x.decodeRune(b, pos)
+			pos += w
+		}
+		return n
+	}
+	externals["unicode/utf8.RuneCountInString"] = count
+	externals["unicode/utf8.RuneCount"] = count
+	valid := func(fr *frame, args []value) value {
+		b := bytesOf(args[0])
+		if s, ok := mkStr(b).(string); ok {
+			return utf8.ValidString(s)
+		}
+		x := fr.i.x
+		for pos := 0; pos < len(b); {
+			r, w := x.decodeRune(b, pos)
+			if w == 1 {
+				if rr, ok := r.(int32); ok && rr == utf8.RuneError {
+					return false
+				}
+			}
+			pos += w
+		}
+		return true
+	}
+	externals["unicode/utf8.ValidString"] = valid
+	externals["unicode/utf8.Valid"] = valid
+}
+
+// ---- strconv.Quote over symbolic bytes ----
+//
+// Precise model of strconv.Quote (quote = '"', ASCIIonly = false,
+// graphicOnly = false): per rune one decision on its escape class; the bytes
+// inside a class are terms (no further forking).
+
+func (x *pathCtx) quoteSym(b []value) value {
+	tt := x.tt
+	out := []value{byte('"')}
+	hex := func(n *Term) value { // n: 4-bit value in 8 bits
+		lt10 := tt.BVCmp("bvult", n, tt.BV(8, 10))
+		return x.lower(tt.Ite(lt10, tt.BVBin("bvadd", n, tt.BV(8, '0')), tt.BVBin("bvadd", n, tt.BV(8, 'a'-10))), types.Uint8)
+	}
+	hexEsc := func(c *Term) {
+		out = append(out, byte('\\'), byte('x'),
+			hex(tt.BVBin("bvlshr", c, tt.BV(8, 4))), hex(tt.BVBin("bvand", c, tt.BV(8, 0x0f))))
+	}
+	for pos := 0; pos < len(b); {
+		if c, ok := b[pos].(byte); ok && c < utf8.RuneSelf {
+			q := strconv.Quote(string([]byte{c}))
+			out = append(out, strBytes(q[1:len(q)-1])...)
+			pos++
+			continue
+		}
+		r, w := x.decodeRune(b, pos)
+		if w > 1 {
+			// valid multi-byte sequence: printable runes are copied, others escaped
+			if rr, ok := r.(int32); ok {
+				q := strconv.Quote(string(rune(rr)))
+				out = append(out, strBytes(q[1:len(q)-1])...)
+				pos += w
+				continue
+			}
+			// symbolic rune of width w: one decision on printability
+			rt := x.lift(r)
+			lo, hi := uint64(0x80), uint64(0x7ff)
+			switch w {
+			case 3:
+				lo, hi = 0x800, 0xffff
+			case 4:
+				lo, hi = 0x10000, 0x10ffff
+			}
+			pr := tt.Bool(false)
+			for _, rg := range printableRanges(rune(lo), rune(hi)) {
+				pr = tt.Or(pr, x.inRange(rt, uint64(rg[0]), uint64(rg[1])))
+			}
+			if x.decideBool(pr, "quote printable rune") {
+				out = append(out, b[pos:pos+w]...)
+			} else {
+				nib := func(k uint) value {
+					n := tt.Extract(7, 0, tt.BVBin("bvand", tt.BVBin("bvlshr", rt, tt.BV(32, uint64(4*k))), tt.BV(32, 0xf)))
+					return hex(n)
+				}
+				if w <= 3 {
+					out = append(out, byte('\\'), byte('u'), nib(3), nib(2), nib(1), nib(0))
+				} else {
+					out = append(out, byte('\\'), byte('U'), nib(7), nib(6), nib(5), nib(4), nib(3), nib(2), nib(1), nib(0))
+				}
+			}
+			pos += w
+			continue
+		}
+		if rr, ok := r.(int32); ok && rr == utf8.RuneError {
+			// invalid byte: \xhh
+			hexEsc(x.lift(b[pos]))
+			pos++
+			continue
+		}
+		// single ASCII byte, symbolic
+		c := x.lift(b[pos])
+		eq := func(k byte) *Term { return tt.Eq(c, tt.BV(8, uint64(k))) }
+		isQuote := tt.Or(eq('"'), eq('\\'))
+		printable := tt.And(x.inRange(c, 0x20, 0x7e), tt.Not(isQuote))
+		named := tt.Or(x.inRange(c, 7, 13), tt.Bool(false)) // \a \b \t \n \v \f \r
+		alts := []*Term{isQuote, printable, named, tt.Not(tt.Or(isQuote, tt.Or(printable, named)))}
+		switch x.decide(alts, "quote class") {
+		case 0:
+			out = append(out, byte('\\'), b[pos])
+		case 1:
+			out = append(out, b[pos])
+		case 2:
+			// 7:a 8:b 9:t 10:n 11:v 12:f 13:r
+			letters := "abtnvfr"
+			var t *Term = tt.BV(8, uint64(letters[6]))
+			for k := 5; k >= 0; k-- {
+				t = tt.Ite(eq(byte(7+k)), tt.BV(8, uint64(letters[k])), t)
+			}
+			out = append(out, byte('\\'), x.lower(t, types.Uint8))
+		default:
+			hexEsc(c)
+		}
+		pos++
+	}
+	out = append(out, byte('"'))
+	return mkStr(out)
+}
+
+func init() {
+	externals["strconv.Quote"] = func(fr *frame, args []value) value {
+		if s, ok := args[0].(string); ok {
+			return strconv.Quote(s)
+		}
+		return fr.i.x.quoteSym(strBytes(args[0]))
+	}
+}
+
+var printableCache = map[[2]rune][][2]rune{}
+var printableMu sync.Mutex
+
+// printableRanges lists the maximal runs of strconv.IsPrint runes in [lo, hi].
+func printableRanges(lo, hi rune) [][2]rune {
+	printableMu.Lock()
+	defer printableMu.Unlock()
+	k := [2]rune{lo, hi}
+	if r, ok := printableCache[k]; ok {
+		return r
+	}
+	var out [][2]rune
+	start := rune(-1)
+	for r := lo; r <= hi; r++ {
+		if strconv.IsPrint(r) {
+			if start < 0 {
+				start = r
+			}
+		} else if start >= 0 {
+			out = append(out, [2]rune{start, r - 1})
+			start = -1
+		}
+	}
+	if start >= 0 {
+		out = append(out, [2]rune{start, hi})
+	}
+	printableCache[k] = out
+	return out
 }
